@@ -19,8 +19,8 @@ def _concrete_dists(W):
 
 ENTRY_POINTS = ["empi_dists_sequence_from_prob_dists", "empi_dist_sequence_from_prob_dist", "data_from_prob_dist", "dataset_from_prob_dists",
                 "Experiment.generate_empi_dists_sequence", "Experiment.generate_data", "Experiment.generate_dataset", "Experiment.generate_empi_dist_sequence",
-                "StandardQst.generate_empi_dists", "StandardQst.generate_empi_dist",
-                "StandardQst.generate_empi_dists_sequence", "StandardPovmt.generate_empi_dists", "StandardQpt.generate_empi_dists", "StandardQmpt.generate_empi_dists"]
+                ] + [f"{k}.{m}" for k in ("StandardQst", "StandardPovmt", "StandardQpt", "StandardQmpt")
+                     for m in ("generate_empi_dists", "generate_empi_dist", "generate_empi_dists_sequence")]
 
 
 def make_call(W, entry):
@@ -48,25 +48,24 @@ def make_call(W, entry):
             return lambda s: exp.generate_empi_dist_sequence(1, [10, 20], s)
         return lambda s: exp.generate_empi_dists_sequence([[10, 10, 10], [20, 20, 20]], s)
     cls = entry.split(".")[0]
-    true_state = states[1]
     if cls == "StandardQst":
         qt = W.mod(STD + "standard_qst").StandardQst(povms, on_para_eq_constraint=True, seed_data=5)
-        if entry.endswith("generate_empi_dist"):
-            return lambda s: qt.generate_empi_dist(0, true_state, 10, s)
-        if entry.endswith("generate_empi_dists"):
-            return lambda s: qt.generate_empi_dists(true_state, 10, s)
-        return lambda s: qt.generate_empi_dists_sequence(true_state, [10, 20], s)
-    if cls == "StandardPovmt":
+        true = states[1]
+    elif cls == "StandardPovmt":
         qt = W.mod(STD + "standard_povmt").StandardPovmt(states, 2, on_para_eq_constraint=True, seed_data=5)
-        return lambda s: qt.generate_empi_dists(povms[0], 10, s)
-    if cls == "StandardQpt":
+        true = povms[0]
+    elif cls == "StandardQpt":
         qt = W.mod(STD + "standard_qpt").StandardQpt(states, povms, on_para_eq_constraint=True, seed_data=5)
-        gate = W.mod("quara.objects.gate").Gate(c_sys, np.eye(4, dtype=np.float64), is_physicality_required=False)
-        return lambda s: qt.generate_empi_dists(gate, 10, s)
-    qt = W.mod(STD + "standard_qmpt").StandardQmpt(states, povms, 2, on_para_eq_constraint=True, seed_data=5)
-    hss = [np.eye(4, dtype=np.float64) / 2, np.eye(4, dtype=np.float64) / 2]
-    mp = W.mod("quara.objects.mprocess").MProcess(c_sys, hss, is_physicality_required=False)
-    return lambda s: qt.generate_empi_dists(mp, 10, s)
+        true = W.mod("quara.objects.gate").Gate(c_sys, np.eye(4, dtype=np.float64), is_physicality_required=False)
+    else:
+        qt = W.mod(STD + "standard_qmpt").StandardQmpt(states, povms, 2, on_para_eq_constraint=True, seed_data=5)
+        hss = [np.eye(4, dtype=np.float64) / 2, np.eye(4, dtype=np.float64) / 2]
+        true = W.mod("quara.objects.mprocess").MProcess(c_sys, hss, is_physicality_required=False)
+    if entry.endswith("generate_empi_dist"):
+        return lambda s: qt.generate_empi_dist(0, true, 10, s)
+    if entry.endswith("generate_empi_dists"):
+        return lambda s: qt.generate_empi_dists(true, 10, s)
+    return lambda s: qt.generate_empi_dists_sequence(true, [10, 20], s)
 
 
 def _norm(x):
@@ -356,3 +355,73 @@ class SampleRouting(E2Contract):
                 eq("one-draw-per-requested-distribution", out["n_draws"], out["n_expected"], "exactly one multinomial draw per returned distribution"),
                 eq("distribution==counts/attached-size", out["counts_ok"], [True] * len(out["counts_ok"]),
                    "every returned distribution times its attached sample size is the vector of counts of its draw (whole numbers summing to that size)")]
+
+
+class ResetSeed(E2Contract):
+    """Experiment.reset_seed_data / QTomography.reset_seed: afterwards the object reports the new seed and the global numpy state is the one
+    np.random.seed(new seed) produces (nothing is re-seeded when the new seed is None); reset_seed() without argument re-seeds with the stored seed"""
+    name = "reset_seed_data / reset_seed"
+    prop = "C14"
+    targets = ("quara.qcircuit.experiment:Experiment.reset_seed_data", "quara.protocol.qtomography.qtomography:QTomography.reset_seed")
+    frame = False
+    n_conformance = 0
+    max_paths = 8
+
+    def configs(self, tier):
+        return [("experiment", 5, 9), ("experiment", None, 9), ("experiment", 5, None), ("experiment", 9, 5), ("tomography", 5, 9), ("tomography", 5, "stored"),
+                ("tomography", None, 9)]
+
+    def inputs(self, W, cfg, mk):
+        return dict(probe=mk.real("probe"))
+
+    def _make(self, W, cfg):
+        who, first, _ = cfg
+        c_sys, states, povms = exact_testers(W, "1q", False)
+        if who == "experiment":
+            return W.mod("quara.qcircuit.experiment").Experiment(states=[states[2]], povms=povms, gates=[],
+                                                                    schedules=[[("state", 0), ("povm", j)] for j in range(3)], seed_data=first)
+        return W.mod("quara.protocol.qtomography.standard.standard_qst").StandardQst(povms, on_para_eq_constraint=True, seed_data=first)
+
+    def run(self, W, cfg, inp):
+        who, first, new = cfg
+        obj = self._make(W, cfg)
+        expected_seed = first if new in (None, "stored") else new
+        if W.symbolic:
+            symrandom.reset()
+            W.np.random.seed(4242)          # some unrelated global state
+            W.np.random.random(3)
+            before = (symrandom.GLOBAL.sid, symrandom.GLOBAL.pos)
+            self._reset(obj, who, new)
+            after = (symrandom.GLOBAL.sid, symrandom.GLOBAL.pos)
+            reseeds = (new is not None) if who == "experiment" else (expected_seed is not None)
+            want = (("G", "seed", expected_seed), 0) if reseeds else before
+            return dict(state_ok=after == want, seed=(obj.seed_data if who == "experiment" else obj._experiment.seed_data))
+        import numpy
+        numpy.random.seed(4242)
+        numpy.random.random(3)
+        before = numpy.random.get_state()[1].tolist()
+        self._reset(obj, who, new)
+        after = numpy.random.get_state()[1].tolist()
+        reseeds = (new is not None) if who == "experiment" else (expected_seed is not None)
+        if reseeds:
+            numpy.random.seed(expected_seed)
+            want = numpy.random.get_state()[1].tolist()
+        else:
+            want = before
+        return dict(state_ok=after == want, seed=(obj.seed_data if who == "experiment" else obj._experiment.seed_data))
+
+    @staticmethod
+    def _reset(obj, who, new):
+        if who == "experiment":
+            obj.reset_seed_data(new)
+        elif new == "stored":
+            obj.reset_seed()
+        else:
+            obj.reset_seed(new)
+
+    def post(self, W, cfg, inp, out):
+        who, first, new = cfg
+        expected_seed = first if (new == "stored" or (new is None and who == "tomography")) else new
+        return [eq("global-state==seeded-with-the-new-seed", out["state_ok"], True,
+                   "after the reset the global numpy state is the one np.random.seed(new seed) produces (untouched when there is no seed to set)"),
+                eq("reports-the-new-seed", out["seed"], expected_seed, "the object reports the seed now in force")]
